@@ -353,7 +353,7 @@ def tasks(tier, seed):
     from ..pyvc.driver import verify
     from ..contracts import curvesv
     ts = [(task_frames, ()), (task_copies, ()), (task_find_roots_length, ()), (task_float_operands, ())]
-    ts += [(verify, (c, m, q, v)) for c, m, q, v in curvesv.ALL if "eval" not in c.name]
+    ts += [(verify, (c, m, q, v)) for c, m, q, v in curvesv.ALL if q != "Curve.eval"]
     depth = 2 if tier == "quick" else 3
     nch = 4 if tier == "quick" else 16
     for start in STARTS:
